@@ -117,12 +117,63 @@ def unop(ip, opname, v):
             pass
     e = as_expr(ip, v)
     if opname == 'Invert':
-        if e.op == '~':
-            return e.args[0]
-        return E('~', (e,), w=e.w)
+        return invert(e)
     if opname == 'USub':
         return E('neg', (e,), w=e.w)
     return e
+
+
+_NEGCMP = {'==': '!=', '!=': '==', '<': '>=', '>=': '<', '>': '<=', '<=': '>'}
+
+
+def invert(e):
+    """~e in negation normal form for 1-bit operands, so that `~(a | b)` and `~a & ~b`, `~(x == 0)` and `x != 0`
+    have one canonical form."""
+    from .ir import _is_bool
+    if e.op == '~':
+        return e.args[0]
+    if e.op in _NEGCMP and len(e.args) == 2:
+        return norm_cmp(_NEGCMP[e.op], e.args[0], e.args[1])
+    if e.op in ('&', '|') and len(e.args) >= 2 and all(isinstance(a, E) and _is_bool(a) and a.w in (1, None) and
+                                                        (a.w == 1 or a.op in _NEGCMP or a.op in ('~', '&', '|', 'ongoing', 'call'))
+                                                        for a in e.args):
+        dual = '|' if e.op == '&' else '&'
+        args = []
+        for a in e.args:
+            na = invert(a)
+            if na.op == dual:
+                args.extend(na.args)
+            else:
+                args.append(na)
+        return E(dual, args, w=1)
+    return E('~', (e,), w=e.w)
+
+
+def norm_cmp(op, ea, eb):
+    """Canonical comparison: constants on the left for ==/!= (sorted anyway); ordering comparisons only as
+    `x >= K` / `x < K` when one side is a constant (or `e - 1`); 1-bit compared with 0/1 collapses to x / ~x."""
+    def const(x):
+        return x.val if isinstance(x, E) and x.op == 'const' and isinstance(x.val, int) and not isinstance(x.val, bool) else None
+    ka, kb = const(ea), const(eb)
+    if op in ('==', '!='):
+        for x, k in ((ea, kb), (eb, ka)):
+            if k in (0, 1) and isinstance(x, E) and x.w == 1 and x.op != 'const':
+                return x if (k == 1) == (op == '==') else invert(x)
+        return E(op, (ea, eb), w=1)
+    # put the constant on the right
+    if ka is not None and kb is None:
+        ea, eb, ka, kb = eb, ea, kb, ka
+        op = {'<': '>', '>': '<', '<=': '>=', '>=': '<='}[op]
+    if kb is not None:
+        if op == '>':
+            return E('>=', (ea, E('const', val=kb + 1)), w=1)
+        if op == '<=':
+            return E('<', (ea, E('const', val=kb + 1)), w=1)
+        return E(op, (ea, eb), w=1)
+    # x > (e - 1)  ==  x >= e ;  x <= (e - 1) == x < e
+    if isinstance(eb, E) and eb.op == '-' and len(eb.args) == 2 and const(eb.args[1]) == 1 and op in ('>', '<='):
+        return E('>=' if op == '>' else '<', (ea, eb.args[0]), w=1)
+    return E(op, (ea, eb), w=1)
 
 
 def binop(ip, opname, a, b, node=None):
@@ -224,7 +275,7 @@ def compare(ip, opname, a, b, node=None):
             return op == '!='
         return Unknown('cmp none')
     ea, eb = as_expr(ip, a), as_expr(ip, b)
-    return E(op, (ea, eb), w=1)
+    return norm_cmp(op, ea, eb)
 
 
 def _is(ip, a, b):
@@ -1138,6 +1189,8 @@ def value_method(ip, meth, sv, args, kwargs, node):
     if meth in ('any', 'all', 'bool', 'xor'):
         if e.w == 1 and meth in ('any', 'all', 'bool'):
             return e
+        if meth in ('any', 'bool') and e.w is not None:
+            return E('!=', (E('const', val=0), e), w=1)        # same canonical form as `x != 0`
         return E('call', (meth, e), w=1)
     if meth == 'matches':
         return E('call', ('matches', e) + tuple(as_expr(ip, a) for a in args), w=1)
